@@ -21,6 +21,14 @@ def out_of(obs):
 def run_apps(ctx, cases, opname=lambda c: 'app:' + c.meta.get('kind', '?'), what=None):
     """run app cases through both drivers, register the correspondence; returns (impl, model)"""
     impl, model = ctx.both(cases)
+    # a time-out or a killed driver may be the machine's doing (sixteen shards, other jobs): such a case is run again, on its
+    # own, before anything is concluded from it; a real hang or crash shows again
+    again = [c for c in cases if impl[c.id].get('status') in ('timeout', 'crash')][:24]
+    for c in again:
+        r = ctx.go([c.go()])
+        ctx.count('re-run alone after %s' % impl[c.id].get('status'))
+        if r.get(c.id, {}).get('status') not in ('timeout', 'crash', None):
+            impl[c.id] = r[c.id]
     for c in cases:
         i, m = impl[c.id], model[c.id]
         if m.get('status') == 'driver-error':
